@@ -10,6 +10,11 @@ CONSTANTS
   MainReadsErrs = TRUE
   GenVariants = {1, 2}
   SlotRelease = "deferred"
+  TargetRule = "trimsuffix"
+  WalkRule = "filesonly"
+  OrphanStat = "fileonly"
+  RootRule = "exempt"
+  RootTrees <- TreesRoot
   SkipRule = "coded"
   TwoRuns = TRUE
   EmitCases = FALSE
